@@ -80,7 +80,7 @@ def call(c, scripted=None):
     if scripted is not None:
         iu.random = scripted
     try:
-        if c['count'] == 'repeat':
+        if c['count'] == 'repeat' or (c['count'] != 'default' and c['count'] > 10 ** 6):
             return outcome(lambda: list(itertools.islice(iu.backoff_iter(c['start'], c['stop'], **kw), 200)))
         if c.get('via') == 'iter':
             return outcome(lambda: list(iu.backoff_iter(c['start'], c['stop'], **kw)))
@@ -96,19 +96,21 @@ def check(c, st):
     j = 0.0 if jitter in ('default', False) else (1.0 if jitter is True else float(jitter))
     count = c['count']
     valid = (0 <= start <= stop and stop > 0 and factor >= 1 and -1 <= j <= 1
-             and (count in ('default', 'repeat') or count >= 0))
+             and (count in ('default', 'repeat') or count >= 0))        # (every comparison is False for NaN)
     st.monitor_evals += 1
     if not valid:
         # ValueError before anything is yielded, from both entry points
         got = call(dict(c, via='list'))
+        nans = [k for k in ('start', 'stop', 'factor', 'jitter') if isinstance(c[k], float) and c[k] != c[k]]
+        why = ':nan-' + '+'.join(nans) if nans else ''
         if got != ('exc', 'ValueError'):
-            return ('invalid-accepted', 'backoff(%r) = %r, expected ValueError' % (c, got))
+            return ('invalid-accepted' + why, 'backoff(%r) = %r, expected ValueError' % (c, got))
         iu = common.load('iterutils')
         kw = {k: c[k] for k in ('count', 'factor', 'jitter') if c[k] != 'default'}
         it = iu.backoff_iter(start, stop, **kw)
         first = outcome(lambda: next(it))
         if first != ('exc', 'ValueError'):
-            return ('invalid-accepted', 'backoff_iter(%r) first next() = %r, expected ValueError' % (c, first))
+            return ('invalid-accepted' + why, 'backoff_iter(%r) first next() = %r, expected ValueError' % (c, first))
         st.count('invalid_cases')
         return None
     # un-jittered base run
@@ -117,15 +119,17 @@ def check(c, st):
     if got[0] != 'ok':
         return ('raised:%s' % got[1], 'backoff(%r) raised %s' % (base_c, got[1]))
     seq = got[1]
-    tag = 'default-count' if count == 'default' else ('repeat' if count == 'repeat' else 'count')
+    tag = 'default-count' if count == 'default' else ('repeat' if count == 'repeat' else
+                                                       'count:float' if isinstance(count, float) else
+                                                       'count:huge' if count > 10 ** 6 else 'count')
     if count == 'default':
         n = len(seq)
         if n == 0:
             return ('default-count:empty', 'backoff(%r) yielded nothing' % (base_c,))
-    elif count == 'repeat':
-        n = 200
+    elif count == 'repeat' or count > 10 ** 6:
+        n = 200         # endless / astronomically long: a prefix is examined
     else:
-        n = count
+        n = int(count)
     if len(seq) != n:
         return ('length:' + tag, 'backoff(%r) yielded %d values, want %d' % (base_c, len(seq), n))
     ref = reference(start, stop, factor, n)
@@ -193,15 +197,34 @@ def gen(r):
             start = r.choice([0, 0, 1e-9, stop / 4, stop])
     else:
         stop = (start if start else 1.0) * r.uniform(1, 1000) if r.random() < 0.8 else float(start or 1)
-    count = r.choice(['default', 'default', 'default', 0, 1, 2, 5, 17, 'repeat'])
+    if r.random() < 0.06:
+        # factors a hair above 1 (valid: factor >= 1), with a stop a few steps away so the default count stays small
+        factor = r.choice([1 + 1e-10, math.nextafter(1.0, 2.0), 1 + 2.0 ** -40, 1.000000001, 1 + 1e-12])
+        f = factor
+        start = r.choice([1, 0.1, 3, 1e6])
+        stop = float(start)
+        for _ in range(r.randint(1, 8)):
+            stop *= f
+        stop = nudge(stop, r.randint(-1, 1))
+        if stop < start:
+            stop = start
+    count = r.choice(['default', 'default', 'default', 0, 1, 2, 5, 17, 'repeat', 12.0, 3.0, 1e3, 10 ** 20, 2 ** 63])
     if f == 1.0 and count == 'default':
         count = r.choice([0, 1, 3, 'repeat'])
     jitter = r.choice(['default', 'default', False, True, -1, -0.5, 0.3, 1, 1.0, 0.999])
     c = {'start': start, 'stop': stop, 'factor': factor, 'count': count, 'jitter': jitter,
          'via': r.choice(['list', 'iter']), 'rseed': r.randint(0, 10 ** 6)}
     if r.random() < 0.12:   # invalid parameters
-        which = r.choice(['start<0', 'factor<1', 'stop=0', 'stop<start', 'jitter>1', 'jitter<-1', 'count<0'])
-        if which == 'start<0':
+        which = r.choice(['start<0', 'factor<1', 'stop=0', 'stop<start', 'jitter>1', 'jitter<-1', 'count<0', 'nan', 'nan'])
+        if which == 'nan':
+            # not-a-number is inside no range: with and without an explicit count
+            c[r.choice(['start', 'stop', 'factor', 'jitter'])] = float('nan')
+            c['count'] = r.choice(['default', 3, 0, 'repeat'])
+            if c['count'] == 'default' and (2.0 if c['factor'] == 'default' else float(c['factor'])) == 1.0:
+                c['count'] = 3      # the statement ties the default count to factor > 1
+        if which == 'nan':
+            pass
+        elif which == 'start<0':
             c['start'] = r.choice([-1, -0.001])
         elif which == 'factor<1':
             c['factor'] = r.choice([0.5, 0.999, 0, -2])
